@@ -828,6 +828,7 @@ func (r *nlRun) acceptLoop() {
 		if sw, ok := conn.(*streamWrapper); ok {
 			r.wrapped[sw.stream]++
 			if r.wrapped[sw.stream] > 1 {
+				atomic.StoreInt32(&r.failed, 1)
 				r.viol = append(r.viol, fmt.Sprintf("Accept returned two conns wrapping the same stream (id %d)", sw.stream.id))
 			}
 			if ci, ok := r.srvIndex[sw.stream.session]; ok {
